@@ -619,8 +619,8 @@ func goRoundTrip(c *rig.Ctx, root doltdb.RootValue, label string, st *c37stats) 
 // ---- stage A: faithful storage ----
 
 func c37faithful(c *rig.Ctx, box *srvBox, st *c37stats) {
-	ndb := c.Pick(10, 300)
-	perDB := c.Pick(12, 30)
+	ndb := c.Pick(10, 150)
+	perDB := c.Pick(12, 20)
 	type live struct {
 		db    string
 		specs []*tableSpec
@@ -805,7 +805,7 @@ type tagView struct {
 }
 
 func c37determinism(c *rig.Ctx, box *srvBox, st *c37stats) {
-	n := c.Pick(40, 2000)
+	n := c.Pick(40, 800)
 	for i := 0; i < n && c.Violations() < 10; i++ {
 		r := c.SubRand("c37/tags", i)
 		db := fmt.Sprintf("c37b_%d", i)
